@@ -344,6 +344,11 @@ def judge_scan(res, cfg, bus, devs, m, kind, val, n):
     if not names or names[0] != ("StartQuiescentMode", ("broadcast",)) or names[-1] != ("StopQuiescentMode", ("broadcast",)) \
             or sum(1 for x in names if x[0] in ("StartQuiescentMode", "StopQuiescentMode")) != 2:
         add_violation(res, f"C13:scan-not-bracketed:{tag}", f"{cfg}: first {names[:1]} last {names[-1:]}", case)
+    # ... and the units really were in quiescent mode in between (a START QUIESCENT MODE that is transmitted once is discarded)
+    awake = [i for i, dv in enumerate(devs) if getattr(dv, "quiescent_log", None) not in (["start", "stop"],)]
+    if awake and kind == "return":
+        add_violation(res, f"C13:scan-units-not-quiescent:{tag}", f"{cfg}: units {awake} saw {[devs[i].quiescent_log for i in awake][:3]} - the scan ran while they were "
+                      f"not in quiescent mode (commands discarded as sent once: {getattr(bus.bus if hasattr(bus, 'bus') else bus, 'sent_once_discarded', '?')})", case)
     return "ok"
 
 
